@@ -2,6 +2,7 @@ package checks
 
 import (
 	"context"
+	"encoding/json"
 	"fmt"
 	"strconv"
 
@@ -239,6 +240,24 @@ func c12Judge(r *core.Run, s *openapi3.Schema, v any, order int) (out []c12Findi
 // normJSON maps Go values an error may quote ([]string, int64...) to decoded-JSON form.
 func normJSON(v any) any {
 	switch x := v.(type) {
+	case json.Number:
+		f, err := x.Float64()
+		if err != nil {
+			return x.String()
+		}
+		return f
+	case int32:
+		return float64(x)
+	case uint64:
+		return float64(x)
+	case float32:
+		return float64(x)
+	case []string:
+		out := make([]any, len(x))
+		for i := range x {
+			out[i] = x[i]
+		}
+		return out
 	case int:
 		return float64(x)
 	case int64:
